@@ -90,7 +90,7 @@ theorem request_line (g : Cfg) (p : P) (tok : Bytes) (m t pr rest : Bytes) (acc 
   simp only [nextTok_here, List.append_nil]
   -- rest of the version
   rw [scan_keep g { p with st := .proto } (by simp [block]) ps
-        (by intro c hc tok'; have := hps c hc; simp [byteStep, ok, this.1, this.2])]
+        (by intro c hc tok'; have := hps c hc; simp [byteStep, ok, this.1, this.2, hproto])]
   -- CR
   rw [spec_step g _ _ CR _ _ { p with st := .protoLF } .keep [.proto (p0 :: ps)] (by simp [block])
         (by simp [byteStep, ok, hproto, hv, CR, SP])]
@@ -107,10 +107,10 @@ theorem num_facts (c : UInt8) (h : isNum c = true) : c ≠ SP ∧ digitVal c ≤
   exact key
 
 set_option maxRecDepth 8192 in
-theorem alpha_facts (c : UInt8) (h : isAlpha c = true) : c ≠ SP ∧ c ≠ CR := by
-  have key := forall_uint8 (fun c => !isAlpha c || (c != SP && c != CR)) (by decide) c
+theorem alpha_facts (c : UInt8) (h : isAlpha c = true) : c ≠ SP ∧ c ≠ CR ∧ c ≠ LF := by
+  have key := forall_uint8 (fun c => !isAlpha c || (c != SP && c != CR && c != LF)) (by decide) c
   simp only [h, Bool.not_true, Bool.false_or, Bool.and_eq_true, bne_iff_ne, ne_eq] at key
-  exact key
+  exact ⟨key.1.1, key.1.2, key.2⟩
 
 /-- a three-digit status code parses to its decimal value -/
 theorem parse_code (code : Bytes) (hl : code.length = 3) (hd : code.all isNum = true) :
@@ -129,7 +129,7 @@ theorem status_line (g : Cfg) (p : P) (tok : Bytes) (pr code reason rest : Bytes
     (hp : p.st = .clientProtoBefore) (hproto : p.proto = []) (hstatus : p.status = []) (hsc : p.statusCode = 0)
     (hpr : protoShape pr = true) (hH : pr.head? = some 72) (hv : g.protoOk pr = true)
     (hl : code.length = 3) (hd : code.all isNum = true)
-    (hr : reason = [] ∨ ∃ r0 rs, reason = r0 :: rs ∧ isAlpha r0 = true ∧ ∀ c ∈ rs, c ≠ CR) :
+    (hr : reason = [] ∨ ∃ r0 rs, reason = r0 :: rs ∧ isAlpha r0 = true ∧ ∀ c ∈ rs, c ≠ CR ∧ c ≠ LF) :
     ∃ tok', specFeed (M g) p tok (pr ++ [SP] ++ code ++ [SP] ++ reason ++ [CR, LF] ++ rest) acc =
       specFeed (M g) { p with st := .headerKeyBefore } tok' rest
         (acc ++ [.proto pr, .status (decimal code) (trimRightSpaces reason)]) := by
@@ -176,7 +176,7 @@ theorem status_line (g : Cfg) (p : P) (tok : Bytes) (pr code reason rest : Bytes
     simp only [List.nil_append]
     -- CR right away: empty reason phrase
     rw [spec_step g _ _ CR _ _ { p with st := .statusLF } .keep [.status (decimal [c0, c1, c2]) []] (by simp [block])
-          (by simp [byteStep, ok, hsc, CR, SP])]
+          (by simp [byteStep, ok, hsc, CR, SP, LF])]
     rw [spec_step g _ _ LF _ _ { p with st := .headerKeyBefore } .keep [] (by simp [block])
           (by simp [byteStep, ok])]
     refine ⟨?w, ?h⟩
@@ -186,15 +186,15 @@ theorem status_line (g : Cfg) (p : P) (tok : Bytes) (pr code reason rest : Bytes
       · simp [trimRightSpaces]
   · subst hr
     simp only [List.cons_append]
-    have ⟨a1, a2⟩ := alpha_facts r0 hr0
+    have ⟨a1, a2, a3⟩ := alpha_facts r0 hr0
     rw [spec_step g _ _ r0 _ _ { p with st := .status, statusCode := decimal [c0, c1, c2] } .here [] (by simp [block])
-          (by simp [byteStep, ok, a1, a2, hr0])]
+          (by simp [byteStep, ok, a1, a2, a3, hr0])]
     simp only [nextTok_here, List.append_nil]
     rw [scan_keep g { p with st := .status, statusCode := decimal [c0, c1, c2] } (by simp [block]) rs
-          (by intro c hc tok'; have := hrs c hc; simp [byteStep, ok, this])]
+          (by intro c hc tok'; have := hrs c hc; simp [byteStep, ok, this.1, this.2])]
     rw [spec_step g _ _ CR _ _ { p with st := .statusLF } .keep
           [.status (decimal [c0, c1, c2]) (trimRightSpaces ([r0] ++ rs))] (by simp [block])
-          (by simp [byteStep, ok, hsc, hstatus])]
+          (by simp [byteStep, ok, hsc, hstatus, CR, LF])]
     rw [spec_step g _ _ LF _ _ { p with st := .headerKeyBefore } .keep [] (by simp [block])
           (by simp [byteStep, ok])]
     refine ⟨?w2, ?h2⟩
